@@ -20,34 +20,39 @@ theorem regStep_pa (st : St) (pfx : Str) (d : Def) :
     (regStep st pfx d).1.peerCount = st.peerCount ∧ (regStep st pfx d).1.actual = st.actual := by
   rcases regStep_cases st pfx d with ⟨id, i, _, _, _, he⟩ | ⟨he, _⟩ <;> rw [he] <;> exact ⟨rfl, rfl⟩
 
-theorem createDyn_pa (st : St) (pfx : Str) (d : Def) (h : Sync st) :
-    (createDyn st pfx d).1.peerCount = st.peerCount ∧ (createDyn st pfx d).1.actual = st.actual := by
+theorem createDyn_pa (st : St) (pfx : Str) (d : Def) :
+    (createDyn st pfx d).1.peerCount = refreshCount st.actual st.peerCount ∧
+      (createDyn st pfx d).1.actual = st.actual := by
   obtain ⟨hp, ha⟩ := regStep_pa st pfx d
-  unfold Sync at h
   unfold createDyn
   by_cases hdet : d.kind = .determ
-  · simp only [hdet, if_true, updatePeers]; exact ⟨h, trivial⟩
+  · simp only [hdet, if_true, updatePeers]; exact ⟨trivial, trivial⟩
   · simp only [hdet, if_false]
     by_cases hc : (d.kind.isThroughput && d.useCluster) = true
-    · simp only [hc, if_true, updatePeers, hp, ha]; exact ⟨h, trivial⟩
+    · simp only [hc, if_true, updatePeers, hp, ha]; exact ⟨trivial, trivial⟩
     · have hc' : (d.kind.isThroughput && d.useCluster) = false := by simpa using hc
       simp only [hc', updatePeers, hp, ha]
       refine ⟨?_, ?_⟩
-      · simp only [Bool.false_eq_true, if_false, hp, ha]; exact h
+      · simp only [Bool.false_eq_true, if_false, hp, ha]
       · simp only [Bool.false_eq_true, if_false, ha]
 
-theorem createMany_pa (pfx : Str) : ∀ (ds : List Def) (st : St), Sync st →
-    (createMany st pfx ds).1.peerCount = st.peerCount ∧ (createMany st pfx ds).1.actual = st.actual
-  | [], st, _ => ⟨rfl, rfl⟩
-  | d :: ds, st, h => by
-    obtain ⟨p1, a1⟩ := createDyn_pa st pfx d h
-    have h1 : Sync (createDyn st pfx d).1 := by unfold Sync at *; rw [p1, a1]; exact h
-    obtain ⟨p2, a2⟩ := createMany_pa pfx ds _ h1
+theorem createMany_pa (pfx : Str) : ∀ (ds : List Def) (st : St),
+    (createMany st pfx ds).1.actual = st.actual ∧
+      ((createMany st pfx ds).1.peerCount = st.peerCount ∨
+       (createMany st pfx ds).1.peerCount = refreshCount st.actual st.peerCount)
+  | [], st => ⟨rfl, Or.inl rfl⟩
+  | d :: ds, st => by
+    obtain ⟨p1, a1⟩ := createDyn_pa st pfx d
+    obtain ⟨a2, p2⟩ := createMany_pa pfx ds (createDyn st pfx d).1
     simp only [createMany]
-    exact ⟨p2.trans p1, a2.trans a1⟩
+    refine ⟨a2.trans a1, Or.inr ?_⟩
+    rcases p2 with p2 | p2
+    · exact p2.trans p1
+    · rw [p2, a1, p1, refresh_idem]
 
-theorem getSampler_pa (st : St) (env : Str) (h : Sync st) {r : St × List Slot}
-    (hr : getSampler st env = some r) : r.1.peerCount = st.peerCount ∧ r.1.actual = st.actual := by
+theorem getSampler_pa (st : St) (env : Str) {r : St × List Slot}
+    (hr : getSampler st env = some r) :
+    r.1.peerCount = refreshCount st.actual st.peerCount ∧ r.1.actual = st.actual := by
   unfold getSampler at hr
   cases hl : lookupCfg st.cfg env with
   | none => rw [hl] at hr; cases hr
@@ -56,20 +61,49 @@ theorem getSampler_pa (st : St) (env : Str) (h : Sync st) {r : St × List Slot}
     cases ec with
     | leaf d =>
       simp only [Option.some.injEq] at hr
-      rw [← hr]; exact createDyn_pa st env d h
+      rw [← hr]; exact createDyn_pa st env d
     | rules ds =>
       simp only [Option.some.injEq] at hr
-      obtain ⟨p1, a1⟩ := createMany_pa (rulesPrefix env) ds st h
+      obtain ⟨a1, p1⟩ := createMany_pa (rulesPrefix env) ds st
       rw [← hr]
-      simp only [updatePeers, p1, a1]
-      exact ⟨h, trivial⟩
+      simp only [updatePeers, a1]
+      refine ⟨?_, trivial⟩
+      rcases p1 with p1 | p1
+      · rw [p1]
+      · rw [p1, refresh_idem]
 
 /-- what one operation does to the property's peer count -/
 def lastGoodStep (pc : Nat) : Op → Nat
   | .peers n => if n > 0 then n else pc
   | _ => pc
 
-theorem step_pc (cfgs : List Config) (st : St) (op : Op) (h : Sync st) :
+/-- operations that change the peer source without running the callback -/
+def IsSplit : Op → Prop
+  | .peerset _ => True
+  | .peersetFail => True
+  | _ => False
+
+theorem step_actual (cfgs : List Config) (st : St) (op : Op) :
+    (step cfgs st op).actual = srcStep st.actual op := by
+  cases op with
+  | get w env =>
+    simp only [step, srcStep]
+    cases AList.get st.caches (w, env) with
+    | some _ => rfl
+    | none =>
+      simp only
+      cases hg : getSampler st env with
+      | none => rfl
+      | some r => exact (getSampler_pa st env hg).2
+  | setcfg j => simp only [step, srcStep]; cases cfgs[j]? <;> rfl
+  | _ => rfl
+
+/-- every state change refreshes or keeps the stored count; after a callback it is in sync -/
+theorem step_peercb (cfgs : List Config) (st : St) :
+    (step cfgs st .peercb).peerCount = refreshCount st.actual st.peerCount ∧ Sync (step cfgs st .peercb) :=
+  ⟨rfl, by simp only [step, updatePeers, Sync]; exact refresh_idem _ _⟩
+
+theorem step_pc (cfgs : List Config) (st : St) (op : Op) (h : Sync st) (hop : ¬ IsSplit op) :
     Sync (step cfgs st op) ∧ (step cfgs st op).peerCount = lastGoodStep st.peerCount op := by
   cases op with
   | get w env =>
@@ -81,11 +115,12 @@ theorem step_pc (cfgs : List Config) (st : St) (op : Op) (h : Sync st) :
       cases hg : getSampler st env with
       | none => exact ⟨h, rfl⟩
       | some r =>
-        obtain ⟨p, a⟩ := getSampler_pa st env h hg
+        obtain ⟨p, a⟩ := getSampler_pa st env hg
         simp only
-        refine ⟨?_, p⟩
-        unfold Sync at *
-        simp only [p, a]; exact h
+        unfold Sync at h
+        refine ⟨?_, p.trans h⟩
+        unfold Sync
+        simp only [p, a, h]
   | peers n =>
     simp only [step, lastGoodStep, updatePeers, Sync]
     refine ⟨refresh_idem _ _, ?_⟩
@@ -93,19 +128,38 @@ theorem step_pc (cfgs : List Config) (st : St) (op : Op) (h : Sync st) :
   | peersFail =>
     simp only [step, lastGoodStep, updatePeers, Sync]
     exact ⟨refresh_idem _ _, rfl⟩
+  | peercb =>
+    simp only [step, lastGoodStep, updatePeers, Sync]
+    exact ⟨refresh_idem _ _, h⟩
+  | peerset n => exact absurd trivial hop
+  | peersetFail => exact absurd trivial hop
   | setcfg j =>
     simp only [step, lastGoodStep]
     cases cfgs[j]? <;> exact ⟨h, rfl⟩
   | clear => exact ⟨h, rfl⟩
   | wreload w => exact ⟨h, rfl⟩
 
-theorem foldl_pc (cfgs : List Config) : ∀ (ops : List Op) (st : St), Sync st →
+theorem foldl_pc (cfgs : List Config) : ∀ (ops : List Op) (st : St), Sync st → (∀ op ∈ ops, ¬ IsSplit op) →
     (ops.foldl (step cfgs) st).peerCount = ops.foldl lastGoodStep st.peerCount
-  | [], _, _ => rfl
-  | op :: ops, st, h => by
-    obtain ⟨h1, p1⟩ := step_pc cfgs st op h
+  | [], _, _, _ => rfl
+  | op :: ops, st, h, hs => by
+    obtain ⟨h1, p1⟩ := step_pc cfgs st op h (hs op (by simp))
     simp only [List.foldl_cons]
-    rw [foldl_pc cfgs ops _ h1, p1]
+    rw [foldl_pc cfgs ops _ h1 (fun o ho => hs o (List.mem_cons_of_mem _ ho)), p1]
+
+theorem foldl_actual (cfgs : List Config) : ∀ (ops : List Op) (st : St),
+    (ops.foldl (step cfgs) st).actual = ops.foldl srcStep st.actual
+  | [], _ => rfl
+  | op :: ops, st => by
+    simp only [List.foldl_cons]
+    rw [foldl_actual cfgs ops, step_actual]
+
+theorem noSplit_iff {ops : List Op} (h : NoSplit ops) : ∀ op ∈ ops, ¬ IsSplit op := by
+  intro op hop hs
+  obtain ⟨a, b⟩ := h op hop
+  cases op <;> simp [IsSplit] at hs
+  · exact a _ rfl
+  · exact b rfl
 
 theorem lastGood_eq (a0 : Option Nat) (ops : List Op) :
     lastGood a0 ops = ops.foldl lastGoodStep (refreshCount a0 1) := by
